@@ -68,17 +68,16 @@ HOOKSF = 'acmed/src/hooks.rs'
 STORAGE_EDITS = [
     {'file': ST, 'replace': 'use tokio::fs::{File, OpenOptions};', 'with': 'use crate::verif_env::fsmodel::{File, OpenOptions};'},
     {'file': ST, 'replace': 'use tokio::io::{AsyncReadExt, AsyncWriteExt};', 'with': ''},
+    {'file': ST, 'replace': 'hook_data.set_env(&fm.env);', 'with': 'let _ = &mut hook_data;'},
     {'file': ST, 'replace': 'let is_new = !path.is_file();', 'with': 'let is_new = !crate::verif_env::env().fs_exists;'},
     {'file': ST, 'replace': '&path.display().to_string()', 'with': '""', 'count': 5},
     {'file': ST, 'fn': 'get_file_full_path', 'body': '\tlet _ = (fm, file_type);\n\tOk((String::new(), String::new(), PathBuf::new()))'},
     {'file': HOOKSF, 'replace': 'env::vars().chain(env.iter().map(deref))', 'with': 'env.iter().map(deref)'},
-    {'file': HOOKSF, 'fn': 'call', 'body': '\tlet e = crate::verif_env::env();\n\tkani::assume(e.hook_ev_n < 6);\n\te.hook_ev[e.hook_ev_n] = hook_type as u8 + 1;\n\te.hook_ev_n += 1;\n\tif kani::any() { e.hook_failed = true; return Err("hook failed".into()); }\n\tOk(())'},
-    {'file': HOOKSF, 'strip_fn': 'call__real'},
-    {'file': HOOKSF, 'strip_fn': 'call_single'},
+    {'file': ST, 'regex': r'hooks::call\(fm, &fm\.hooks, &hook_data, (HookType::\w+)\)\s*\.await\?;', 'with': r'self::verif_h::hook_event(\1 as u8)?;', 'count': 4},
 ]
 STORAGE_ASSUMPTIONS = [
     'tokio::fs replaced (use-line cut) by a POSIX-like single-file model: open(write,create[,truncate]) creates when absent, truncates only when asked; write_all writes at offset 0 and keeps what lies beyond',
     'storage::get_file_full_path cut (path = empty; template rendering outside); Path::is_file replaced by the model\'s existence flag; path.display() in error text removed',
-    'hooks::call cut: records the event type, fails on the solver\'s choice (call_single and the async-process crate are not reachable); process environment not read',
+    'the four hooks::call(...).await? statements of write_file are replaced (expression cut) by a synchronous recorder of the event type that fails on the solver\'s choice (a generic async fn on the path makes CBMC 6.11 abort); process environment not read',
     'nix model: chown records its arguments; user/group database maps names to a symbolic id or to nothing',
 ]
